@@ -238,12 +238,21 @@ def _rbytes(rng, n):
 
 
 def cs_function(rng, alloc, ftype, n_in, n_out, indirect=True):
-    """a function of type 2 (dictionary; one input by definition), 4 or 0 (streams, always indirect objects)"""
+    """a function of type 2 or 3 (dictionaries; one input by definition), 4 or 0 (streams, always indirect objects)"""
     dom = [0, 1] * n_in
     rg = [0, 1] * n_out
     if ftype == 2:
         d = {"FunctionType": 2, "Domain": [0, 1], "C0": [0] * n_out, "C1": [rng.choice([1, 0.5, 0.25]) for _ in range(n_out)],
              "N": rng.choice([1, 2, 0.5])}
+        if rng.random() < 0.5:
+            d["Range"] = rg
+        v = alloc(d) if indirect else d
+    elif ftype == 3:
+        # stitching (§7.10.4): k one-input functions over the sub-domains Bounds cuts out of Domain, each with its own Encode pair
+        k = rng.choice([1, 2, 3])
+        subs = [{"FunctionType": 2, "Domain": [0, 1], "C0": [0] * n_out, "C1": [rng.choice([1, 0.5]) for _ in range(n_out)], "N": 1} for _ in range(k)]
+        d = {"FunctionType": 3, "Domain": [0, 1], "Functions": [alloc(f) if rng.random() < 0.5 else f for f in subs],
+             "Bounds": [round((j + 1) / k, 3) for j in range(k - 1)], "Encode": [0, 1] * k}
         if rng.random() < 0.5:
             d["Range"] = rg
         v = alloc(d) if indirect else d
@@ -397,15 +406,21 @@ def cs_random(rng, alloc):
     return Name(nm), nm
 
 
-def colour_spaces(rng, next_free, everything=False):
-    """a /ColorSpace sub-dictionary: 1..4 random colour spaces, or one of every family"""
+def colour_spaces(rng, next_free, everything=False, stitching=False):
+    """a /ColorSpace sub-dictionary: 1..4 random colour spaces, or one of every family; stitching: a Separation and a one-colorant
+    DeviceN whose tint transforms are type 3 (stitching) functions, next to 0..2 random spaces (finding C07-b: never in the other cases)"""
     cs = ColourSpaces()
 
     def alloc(v):
         num = next_free()
         cs.objs[num] = v
         return Ref(num)
-    lst = cs_all_families(rng, alloc) if everything else [cs_random(rng, alloc) for _ in range(rng.randint(1, 4))]
+    if stitching:
+        lst = [cs_separation(rng, alloc, ftype=3), cs_devicen(rng, alloc, ftype=3, ncol=1, attr=rng.choice([False, "nchannel"]))]
+        lst = lst[:rng.choice([1, 2, 2])] + [cs_random(rng, alloc) for _ in range(rng.randint(0, 2))]
+        rng.shuffle(lst)
+    else:
+        lst = cs_all_families(rng, alloc) if everything else [cs_random(rng, alloc) for _ in range(rng.randint(1, 4))]
     for i, (v, d) in enumerate(lst):
         nm = "%s%d" % (rng.choice(["CS", "Cs", "C"]), i)
         cs.entries[nm] = v
